@@ -1,14 +1,14 @@
 #!/usr/bin/env python3
 """Generates lean/Cobweb/Proofs/Frames.lean: one @[simp] lemma `(f s args).fld = s.fld` for every helper function `f`
 of the machine and every state field `fld` that `f` does not touch. (Mechanical frame conditions.)"""
-FIELDS = """nextEnt alive children comp res removedBuf storage info counter buffered trkSys trkEvt trkEnt trkDsp data tbl
+FIELDS = """nextEnt alive children comp res removedBuf removedOld storage info counter buffered trkSys trkEvt trkEnt trkDsp data tbl
 tblDsp entReactors tracked dspTracker dspChan nextArc arcRc arcEnt autoChan wrSys ewrSys ewLocal wq stack topIdx trace
 entNames sysNames tokens sigs""".split()
 
 KILL = "alive storage entReactors removedBuf comp dspTracker dspChan data ewLocal trace arcRc autoChan".split()
 TRK = "trkSys trkEvt trkEnt trkDsp".split()
 
-APPLY_T = [f for f in FIELDS if f not in ("counter", "buffered", "info", "res", "children", "topIdx", "entNames", "sysNames", "tokens", "sigs", "wrSys", "ewrSys", "wq")]
+APPLY_T = [f for f in FIELDS if f not in ("counter", "buffered", "info", "res", "children", "topIdx", "entNames", "sysNames", "tokens", "sigs", "wrSys", "ewrSys", "wq", "removedOld")]
 ENQ_T = ["nextEnt", "alive", "entNames", "sysNames", "info", "tokens", "res", "comp", "trace"]
 # name -> (binders, application, touched fields, tactic)
 T_SPLIT = "unfold {f}; repeat' (first | rfl | split | dsimp only)"
@@ -37,12 +37,13 @@ FUNCS = [
     ("revokeAll", "(sys : Nat) (ts : List Trig)", "revokeAll s sys ts", ["tbl", "tblDsp", "entReactors", "arcRc", "autoChan"], "FOLD2:revokeOne"),
     ("regCmds", "(h : Handle) (t : Trig)", "(regCmds s h t).1", ["arcRc"], "BLOCK:unfold regCmds|split|· split <;> simp|· simp|· split|  · simp|  · split <;> simp"),
     ("regAll", "(h : Handle) (ts : List Trig)", "(regAll s h ts).1", ["arcRc"], "REGALL"),
-    ("pollRemovals", "", "(pollRemovals s).1", ["removedBuf"], "POLLREM"),
+    ("pollRemovals", "", "(pollRemovals s).1", ["removedBuf", "removedOld"], "POLLREM"),
+    ("clearTrackers", "", "clearTrackers s", ["removedBuf", "removedOld"], "rfl"),
     ("pollDespawns", "", "(pollDespawns s).1", ["dspChan", "tblDsp"], "POLLDSP"),
     ("observe", "(w : Option Nat)", "(observe s w).2", ["data"], "unfold observe; dsimp only; split <;> (try split) <;> rfl"),
     ("enqueue", "(a : Act)", "(enqueue s a).1", ["nextEnt", "alive", "entNames", "sysNames", "info", "tokens", "res", "comp", "trace"],
         "cases a <;> simp only [enqueue] <;> repeat' (first | rfl | split | dsimp only)"),
-    ("applyCmd", "(c : Cmd)", "applyCmd s c", [f for f in FIELDS if f not in ("counter", "buffered", "info", "res", "children", "topIdx", "entNames", "sysNames", "tokens", "sigs", "wrSys", "ewrSys", "wq")],
+    ("applyCmd", "(c : Cmd)", "applyCmd s c", [f for f in FIELDS if f not in ("counter", "buffered", "info", "res", "children", "topIdx", "entNames", "sysNames", "tokens", "sigs", "wrSys", "ewrSys", "wq", "removedOld")],
         "APPLYCMD"),
     ("preBody", "(sys : Nat) (k : Kind)", "preBody s sys k", TRK + ["arcRc", "autoChan", "trace"], "unfold preBody; dsimp only; split <;> simp"),
     ("startBody", "(sys : Nat) (k : Kind)", "startBody s sys k", TRK + ["arcRc", "autoChan", "trace", "info", "data"], "STARTBODY"),
@@ -62,7 +63,7 @@ FUNCS = [
     ("doFinish", "(sys idx : Nat)", "doFinish s sys idx", ["counter", "buffered", "trace", "stack"], "unfold doFinish; repeat' (first | split | dsimp only) <;> simp [St.push]"),
     ("doGc", "", "doGc s", ["autoChan", "stack"], "unfold doGc; split <;> simp [St.push]"),
     ("doDespawnWork", "(w : List (Nat × Bool))", "doDespawnWork s w", KILL + ["children", "stack"], "BLOCK:unfold doDespawnWork|split|· rfl|· split|  · simp [St.push]|  · split <;> simp [St.push]"),
-    ("doPoll", "", "doPoll s", ["removedBuf", "dspChan", "tblDsp", "wq", "stack"], "simp [doPoll, St.push]"),
+    ("doPoll", "", "doPoll s", ["removedBuf", "removedOld", "dspChan", "tblDsp", "wq", "stack"], "simp [doPoll, St.push]"),
 ]
 
 def lemma_name(f, fld): return f.replace("St.", "").replace(".", "_") + "_" + fld
